@@ -384,7 +384,8 @@ class FnAnalysis:
                             self.summary.rebinds.setdefault(tpath(a) + '[]', set()).add(self.site(node, f'{norm_text(t, 60)} = ... (element of list parameter)'))
             if isinstance(t.value, ast.Name):
                 cur = self.env.get(t.value.id)
-                if cur is not None and 'F' in cur.alias:
+                if cur is not None and 'F' in cur.alias and cur.kind != 'arr':
+                    # (a store into an ndarray copies the value's data: the array does not come to contain the value)
                     self.env[t.value.id] = Val(cur.alias, cur.contains | {a for a in v.alias if a[:2] in ('B:', 'P:')} | v.contains, cur.kind, cur.fields)
         elif isinstance(t, ast.Starred):
             self.store(t.value, v, node, aug)
